@@ -32,7 +32,9 @@ RoundUnits(w) == IF w >= 0 THEN ((w + 5000) \div 10000) * 10000 ELSE 0 - (((0 - 
 
 GlyphEq9(g, h) == /\ g.name = h.name /\ g.wx = h.wx /\ g.wy = h.wy /\ g.h = h.h /\ g.v = h.v
                   /\ Len(g.cmds) = Len(h.cmds) /\ \A j \in 1..Len(g.cmds) : CmdEq9(g.cmds[j], h.cmds[j], g.i)
-GlyphEq10(g, h) == /\ g.name = h.name /\ h.wx = RoundUnits(g.wx) /\ h.wy = RoundUnits(g.wy) /\ g.h = h.h /\ g.v = h.v
+\* "advance widths rounded to whole units": a nearest whole unit, either neighbour on a tie
+IsRoundOf(w, r) == r % 10000 = 0 /\ AbsD(r - w) <= 5000
+GlyphEq10(g, h) == /\ g.name = h.name /\ IsRoundOf(g.wx, h.wx) /\ IsRoundOf(g.wy, h.wy) /\ g.h = h.h /\ g.v = h.v
                    /\ Len(g.cmds) = Len(h.cmds) /\ \A j \in 1..Len(g.cmds) : CmdEq10(g.cmds[j], h.cmds[j])
 
 Rest(a, b) == /\ a.enc = b.enc /\ a.name = b.name /\ a.strings = b.strings /\ a.ints = b.ints
